@@ -109,6 +109,32 @@ def check(case, ctx):
             u, v = np.argwhere((fin != same) & off)[0]
             fails.append(Failure("%s:finite-distance-disagrees-with-components" % name,
                                  "pair (%d,%d): D=%s, same component=%s" % (u, v, D[u, v], bool(same[u, v])), case))
+    # history: the SAME array object is edited in place (one node cut off) and handed in again
+    cut = case.get("cut")
+    if sym and cut is not None and n > cut and not fails:
+        X = gen.layout(np.array(A, dtype=float), case.get("order"))
+        for f in (bct.get_components, bct.number_of_components, bct.distance_bin, bct.breadthdist, bct.reachdist):
+            ctx.call(f, X)
+        X[cut, :] = 0
+        X[:, cut] = 0
+        ref2, m2 = og.components_und(X)
+        ref2 = np.array(ref2)
+        o = ctx.call(bct.get_components, X)
+        if o.ok:
+            c2 = np.asarray(o.value[0])
+            if c2.shape != (n,) or not np.array_equal(_comembership(c2), _comembership(ref2)) or len(o.value[1]) != m2:
+                fails.append(Failure("get_components:stale-answer-after-in-place-edit",
+                                     "same array object, node %d cut off in place: labels %s vs BFS %s" % (cut, c2.tolist(), ref2.tolist()), case))
+        o = ctx.call(bct.number_of_components, X)
+        if o.ok and o.value != m2:
+            fails.append(Failure("number_of_components:stale-answer-after-in-place-edit", "%r vs %d" % (o.value, m2), case))
+        same2 = _comembership(ref2)
+        for name in ("distance_bin", "breadthdist", "reachdist"):
+            o = ctx.call(getattr(bct, name), X)
+            if o.ok:
+                D = np.asarray(o.value if name == "distance_bin" else o.value[1], dtype=float)
+                if not np.array_equal(np.isfinite(D)[off], same2[off]):
+                    fails.append(Failure("%s:stale-answer-after-in-place-edit" % name, "node %d cut off in place" % cut, case))
     return fails
 
 
@@ -198,7 +224,7 @@ def cases(draw, nmax):
         for i, b in enumerate(bits):
             if b:
                 W[i, i] = 1 if W.dtype.kind == "i" else 0.5
-    return {"A": W, "family": fam, "order": draw(st.sampled_from(gen.ORDERS))}
+    return {"A": W, "family": fam, "order": draw(st.sampled_from(gen.ORDERS)), "cut": draw(st.integers(0, 3))}
 
 
 _SPACES = {}
@@ -213,7 +239,7 @@ def _space(tier):
 
 def _exh_cases(tier, lo, hi):
     for n, d, A, k in _space(tier).range(lo, hi):
-        yield {"A": A.astype(float) if k % 3 else A.copy(), "family": "exhaustive", "order": gen.ORDERS[k % len(gen.ORDERS)]}
+        yield {"A": A.astype(float) if k % 3 else A.copy(), "family": "exhaustive", "order": gen.ORDERS[k % len(gen.ORDERS)], "cut": (k % 4 if k % 5 == 0 else None)}
 
 
 def units(tier):
